@@ -681,7 +681,7 @@ static json gen_legacy() {
 
 int main(int argc, char **argv) {
   std::vector<Sub> subs;
-  subs.push_back({"histnew", gen_histnew, run_histnew, 4.0, 100, enum_histnew});
   subs.push_back({"legacy", gen_legacy, run_legacy, 1.0, 100, nullptr});
+  subs.push_back({"histnew", gen_histnew, run_histnew, 4.0, 100, enum_histnew});
   return harness_main(argc, argv, "C13", subs);
 }
